@@ -85,3 +85,22 @@ LEVEL_TEXT.update({
 })
 for _p in ["C02", "C10", "C11", "C14", "C19", "C20"]:
     NOT_APPLICABLE.pop(_p, None)
+
+LEVEL_TEXT.update({
+ "C03": dict(text="Theorem C03_crash_atomic: for every extended history (API calls, restarts, a crash after ANY number of filesystem calls of any operation, crashes during "
+                  "recovery nested to any depth, incl. first-time initialisation) from an empty directory, every open succeeds and the final handle satisfies the invariant "
+                  "for a map obtained by applying acknowledged operations in order and each crashed operation entirely or not at all; C03_crash_any_instant, "
+                  "C03_recovery_is_crash_safe, C03_nested_crashes_during_recovery, C03_put_every_prefix, plus C20 / C12 / C06 at every crash point as corollaries of the "
+                  "memory-less invariant Rest. K4: the real process is killed before every effective call of every sampled history (LD_PRELOAD shim), the crashed "
+                  "directory equals the model's crash image, and the real reopen is checked by an independent oracle (acked subset, in-flight all-or-nothing, usable).",
+             note=BASE_NOTE + "Process-kill model: completed calls persist, a call is atomic (a write(2) torn by the kill itself is outside it). c_pre=false and sizes within the "
+                              "format's fields (ext_fits). Recovery after a crash establishes Inv' (DiskOk with a relaxed seal bound; counterexample to the strict one is proved)."),
+ "C08": dict(text="Theorems C08_scan_exact (orphans / missing / corrupted / invalid / staging lists are exactly what directory and index imply, for arbitrary planted files), "
+                  "C08_cleanup_restores_C07 (delete_orphans removes exactly the reported garbage, keeps every referenced blob, restores exactness), "
+                  "C08_cleanup_rechecks_the_live_index. K3: planted garbage at every level + crash images, scan and clean-up of the real library vs the model and vs the "
+                  "directory listing; K6: clean-up racing puts of orphaned content under model-chosen and model-free schedules (oracle: no indexed key without its blob).",
+             note=BASE_NOTE + "Partial: the race clause (clean-up vs concurrent put of the same content) is decided by the concurrent correspondence and the concurrent model's "
+                              "invariant (props/C04.v when claimed), not by these sequential theorems."),
+})
+for _p in ["C03", "C08"]:
+    NOT_APPLICABLE.pop(_p, None)
